@@ -20,6 +20,10 @@ impl Out {
             input.to_string().hash(&mut hs);
             format!("{:016x}", hs.finish())
         };
+        // aborts (stack overflow, allocation failure) cannot be caught: leave a note of the case being run
+        if let Ok(f) = std::env::var("TGH_CURRENT") {
+            let _ = std::fs::write(&f, json!({"op": op, "in": input}).to_string());
+        }
         let (input2, imp) = crate::exec(op, &input);
         let line = json!({"id": self.n, "op": op, "h": h, "in": input2, "impl": imp, "meta": meta});
         self.n += 1;
